@@ -230,3 +230,42 @@ Proof. unfold query_from_url. destruct (vhas K_subject v); [discriminate|]. cbv 
 Theorem url_tuple_decoder_total v : tuple_from_url v <> Panic.
 Proof. unfold tuple_from_url. pose proof (url_query_decoder_total v). destruct (query_from_url v) as [q| |]; try discriminate; [|contradiction].
   destruct (q_sid q), (q_sset q), (q_ns q), (q_obj q), (q_rel q); discriminate. Qed.
+
+(* ---- C18 for the CLI file format (cmd/relationtuple/parse.go) ---- *)
+Definition no_nl (s : bytes) : bool := negb (has NL s).
+Definition dom_line (t : tuple) : bool :=
+  dom_string t && no_nl (tuple_string t) && negb (is_comment (tuple_string t)) &&
+  match tuple_string t with [] => false | c :: _ => negb (is_ws c) end &&
+  match rev (tuple_string t) with [] => false | c :: _ => negb (is_ws c) end.
+
+Lemma trim_ws_l_id s : match s with [] => true | c :: _ => negb (is_ws c) end = true -> trim_ws_l s = s.
+Proof. destruct s as [|c s]; cbn; auto. intros H. apply negb_true_iff in H. now rewrite H. Qed.
+Lemma trim_ws_id s : match s with [] => false | c :: _ => negb (is_ws c) end = true ->
+  match rev s with [] => false | c :: _ => negb (is_ws c) end = true -> trim_ws s = s.
+Proof. intros H1 H2. unfold trim_ws. rewrite (trim_ws_l_id s) by (destruct s; [discriminate|exact H1]).
+  rewrite (trim_ws_l_id (rev s)) by (destruct (rev s); [discriminate|exact H2]). apply rev_involutive. Qed.
+
+Lemma split_nl_line l rest : forall cur, has NL l = false -> split_nl (l ++ NL :: rest) cur = (rev cur ++ l) :: split_nl rest [].
+Proof. induction l as [|c l IH]; intros cur H; cbn [app split_nl].
+  - rewrite beq_refl. now rewrite app_nil_r.
+  - cbn [has existsb] in H. apply orb_false_iff in H as [H1 H2]. rewrite beq_sym, H1. rewrite (IH (c :: cur) H2). cbn. now rewrite <- app_assoc. Qed.
+
+Theorem file_roundtrip ts : forallb dom_line ts = true -> parse_file (print_file ts) = Ok ts.
+Proof.
+  unfold parse_file. induction ts as [|t ts IH]; intros H; [reflexivity|].
+  cbn [forallb] in H. apply andb_true_iff in H as [Ht Hts]. specialize (IH Hts).
+  unfold dom_line in Ht. rewrite !andb_true_iff in Ht. destruct Ht as [[[[Hd Hn] Hc] Hf] Hl].
+  cbn [print_file flat_map]. rewrite <- app_assoc. cbn [app].
+  rewrite (split_nl_line (tuple_string t) _ []) by (unfold no_nl in Hn; now apply negb_true_iff in Hn). cbn [rev app parse_rows].
+  rewrite (trim_ws_id _ Hf Hl). destruct (tuple_string t) as [|c0 l0] eqn:Es; [discriminate|].
+  apply negb_true_iff in Hc. rewrite Hc. rewrite <- Es, (string_roundtrip t Hd).
+  change (print_file ts) with (flat_map (fun t0 => tuple_string t0 ++ [NL]) ts) in IH. rewrite IH. reflexivity.
+Qed.
+(* comments and blank lines are ignored wherever they stand; nothing else is *)
+Theorem file_skips_comment row rest : is_comment (trim_ws row) = true -> parse_rows (row :: rest) = parse_rows rest.
+Proof. intros H. cbn [parse_rows]. destruct (trim_ws row); [reflexivity|]. now rewrite H. Qed.
+Theorem file_total s : parse_file s <> Panic.
+Proof. unfold parse_file. induction (split_nl s []) as [|row r IH]; cbn [parse_rows]; [discriminate|].
+  destruct (trim_ws row) as [|c0 l0] eqn:E; [exact IH|]. destruct (is_comment (c0 :: l0)); [exact IH|].
+  pose proof (string_decoder_total (c0 :: l0)) as Hd. destruct (tuple_from_string (c0 :: l0)); try discriminate; [|contradiction].
+  destruct (parse_rows r); try discriminate. contradiction. Qed.
